@@ -76,6 +76,9 @@ pub fn run(pool: &Pool, tier: &str) -> Outcome {
                     digest_each: false,
                     want_listing: true,
                     isolate,
+                    trace: false,
+                    pre_image: vec![],
+                    faults: vec![],
                 }
             })
             .collect();
